@@ -348,8 +348,12 @@ def clause_validate_then_apply(prog, rep):
             bad = [x for x in f.live_calls() if x.bb in after and x is not c and dec.call(x) and A.call_is_checked(f, x)]
             # a decoder that runs again after the merge is harmless if the same data was already decoded, checked, from the
             # *staged* state before the merge (pre-validation success-dominates the merge)
-            pre = [x for x in f.live_calls() if any(x.name == n_ and (a_ is None or last_seg(x.self_adt) == a_) for n_, a_ in DECODERS) and x.args and "p" in x.args[0]
-                   and any(y.name == "group_context" and last_seg(y.self_adt) == "StagedCommit" for y in f.depends_on(x.args[0]["p"][0])[1])]
+            def is_pre_decoder(x):
+                return (any(x.name == n_ and (a_ is None or last_seg(x.self_adt) == a_) for n_, a_ in DECODERS) and x.args and "p" in x.args[0]
+                        and any(y.name == "group_context" and last_seg(y.self_adt) == "StagedCommit" for y in x.fn.depends_on(x.args[0]["p"][0])[1]))
+            gpre = A.Guarantee(prog, is_pre_decoder)
+            # directly, or inside a helper that cannot return Ok without the decode having succeeded
+            pre = [x for x in f.live_calls() if x is not c and gpre.call(x)]
             if pre and A.succ_dominated(f, c.bb, pre):
                 bad = [x for x in bad if not _decodes_group_data(prog, x)]
             if c.name == "merge_pending_commit":
